@@ -30,9 +30,11 @@ Dprintf == {"DPRINTF1", "DPRINTF2", "DPRINTF3", "DPRINTF4", "DPRINTF5", "DPRINTF
 DprintfLevel(m) == CASE m = "DPRINTF1" -> 1 [] m = "DPRINTF2" -> 2 [] m = "DPRINTF3" -> 3
                      [] m = "DPRINTF4" -> 4 [] m = "DPRINTF5" -> 5 [] m = "DPRINTF6" -> 6
 AssertHold  == {"ASSERT_hold", "ASSERT_RVAL_hold"}
-AssertFail  == {"ASSERT_fail", "ASSERT_RVAL_fail"}
+\* the _pct variants are the same statements with an expression whose text contains printf-looking sequences ("% s", "%d"):
+\* the text of the failed expression is DATA in the diagnostic, never a format
+AssertFail  == {"ASSERT_fail", "ASSERT_RVAL_fail", "ASSERT_fail_pct", "ASSERT_RVAL_fail_pct"}
 RequireHold == {"REQUIRE_hold", "REQUIRE_RVAL_hold"}
-RequireFail == {"REQUIRE_fail", "REQUIRE_RVAL_fail"}
+RequireFail == {"REQUIRE_fail", "REQUIRE_RVAL_fail", "REQUIRE_fail_pct", "REQUIRE_RVAL_fail_pct"}
 Printers    == {"print_warning", "print_error", "dprintf", "fatal_error"}
 Gated  == Subsys \cup Dprintf
 Macros == Gated \cup AssertHold \cup AssertFail \cup RequireHold \cup RequireFail \cup Printers
@@ -73,12 +75,15 @@ Step(op, args, ret, rr, s) == /\ d' = d /\ r' = rr /\ silent' = s /\ Obs(op, arg
 
 OpSetLevel(n)  == Step("set_level", <<n>>, TRUE, n, silent)
 OpSetSilent(b) == Step("set_silent", <<b>>, b, r, b)                      \* libast_set_silent returns the new value
-OpExecute(m)   == \E o \in Outcomes(d, r, silent, m) : Step("execute", <<m>>, o, r, silent)
+\* History of the debug stream: "clean", or one earlier write on it failed (full non-blocking pipe, EAGAIN) and the stream
+\* works again.  S: the gates are the two levels and the silent flag - nothing else; so the outcome is the same.
+Histories == {"clean", "after_failed_write"}
+OpExecute(m, h) == \E o \in Outcomes(d, r, silent, m) : Step("execute", <<m, h>>, o, r, silent)
 
 Init == d \in CompileLevels /\ r = 0 /\ silent = FALSE                    \* a program starts at level 0, not silenced
 Next == \/ \E n \in RunLevels : OpSetLevel(n)
         \/ \E b \in BOOLEAN : OpSetSilent(b)
-        \/ \E m \in Macros : OpExecute(m)
+        \/ \E m \in Macros, h \in Histories : OpExecute(m, h)
 Spec == Init /\ [][Next]_vars
 
 -------------------------------------------------------------------------------
